@@ -5,6 +5,7 @@ Require Import V.Lib.Base V.Lib.Calls V.Lib.Dec V.C09.Spec V.Gen.Consts V.Gen.Co
 Require Import V.C07.Model V.C07.Spec V.C07.ProofsLex V.C07.ProofsGram V.C07.ProofsTop.
 Require Import V.Lib.Contract.
 Require V.C07.ProofsStream V.C07.ProofsContract.
+Require Import V.C07.SpecG V.C07.ProofsGSound.
 Local Open Scope Z_scope.
 
 (* Every text that follows the smodels layout (any whitespace / LF / CRLF between tokens, ANY non-negative numbers in
@@ -178,3 +179,36 @@ Definition ex_inc : list Z :=
 Example c07_ex_contract_hyp : Z.of_nat (length ex_inc) < 2 ^ 31 /\
   read_smodels (mkopts true false) ex_inc = ([CInit true; CBegin; CEnd; CBegin; CMin 0 []; CMin 1 []; CExternal 7 0; CEnd], Ok tt).
 Proof. split; vm_compute; reflexivity. Qed.
+
+(* ================= SOUNDNESS for ARBITRARY byte strings (general description V.C07.SpecG) =================
+   SpecG.v describes the language the reader really accepts - a superset of the writers' layout of Spec.v: a number token is
+   whitespace, an optional '+' (or '-' in front of a zero), a digit string with any number of leading zeros; it is followed by a
+   non-digit byte (so "3+4" are two numbers); a symbol-table line is  atom, one separator (any byte but a digit / NUL, or CRLF),
+   name bytes up to the line break (LF, CRLF, or CR not followed by LF; no NUL); "B+" / "B-" after optional whitespace and directly
+   followed by a line break; the optional "E" section; the number of models; further steps (clasp extension); behind the last
+   step whitespace and then nothing or a NUL byte followed by arbitrary bytes.  [glayout_ok] = shape (counts = list lengths, rule
+   type token, terminating zeros, first byte a digit), [gin_range] = the magnitudes of Spec.in_range on the denoted values plus
+   "first byte '9' (incremental) only with claspExt, several steps only if incremental", [gdenote] = the calls.
+   Whatever byte list the reader accepts IS such a text, in range, and the delivered calls are its denotation. *)
+Theorem c07_sound : forall (o : opts) (t : list Z) (cs : list call),
+  read_smodels o t = (cs, Ok tt) ->
+  exists p : gprog, glayout_ok p = true /\ gin_range (claspExt o) p = true /\ t = grender p /\ cs = gdenote p.
+Proof. exact V.C07.ProofsGSound.g_sound. Qed.
+Print Assumptions c07_sound.
+
+(* non-vacuity: leading zero, '+', CRLF as symbol separator, CR line break directly followed by a digit, "E1", "-0", NUL + garbage tail *)
+Definition gn (w s d : list Z) := mkgnum w s d.
+Definition gex_step : gstep :=
+  mkgstep [GBasic (gn [] [] [48;49]) (gn [32] [43] [49]) (mkgbody (gn [32] [] [48]) (gn [32] [] [48]) [])] (gn [10] [] [48])
+          [mkgsym (gn [13;10] [] [50]) [13;10] [97;98] [13]] (gn [] [] [48])
+          [10] [13;10] [] (gn [] [] [48])
+          [10] [10] [] (gn [] [] [48])
+          (Some ([10], [gn [] [] [49]], gn [32] [] [48]))
+          (gn [10] [45] [48]).
+Definition gex : gprog := mkgprog [gex_step] [0; 120; 121].
+Example c07_ex_general :
+  grender gex = [48;49;32;43;49;32;48;32;48;10;48;13;10;50;13;10;97;98;13;48;10;66;43;13;10;48;10;66;45;10;48;10;69;49;32;48;10;45;48;0;120;121] /\
+  glayout_ok gex = true /\ gin_range false gex = true /\
+  read_smodels (mkopts false false) (grender gex) = ([CInit false; CBegin; CRule 0 [1] []; COutput [97; 98] [2]; CExternal 1 0; CEnd], Ok tt) /\
+  gdenote gex = [CInit false; CBegin; CRule 0 [1] []; COutput [97; 98] [2]; CExternal 1 0; CEnd].
+Proof. repeat split; vm_compute; reflexivity. Qed.
